@@ -1,4 +1,5 @@
 """C05 — the NLP objective is the sum of the declared Mayer, sum and integral terms."""
+from fractions import Fraction
 from .nlpprop import NlpProp, TRUSTED, ASSUMPTIONS
 from .. import engine
 
@@ -31,6 +32,18 @@ def build(rng, opts):
                     c["objective"].append(["int", len(c["quad"]) - 1])
                 c["_twin"] = kind
                 break
+    if c.get("algebraics") and rng.random() < 0.6:
+        # an integrand that varies inside an interval only through an ALGEBRAIC variable (no state, no time): z^2 + w*u^2
+        zs = gen.sym_list(c, ["z"])
+        us = gen.sym_list(c, ["u"])
+        z = rng.choice(zs)
+        e = ["*", z, z]
+        if us:
+            u = rng.choice(us)
+            e = ["+", e, ["*", gen.C(rng.choice([2, 3, Fraction(1, 2)])), ["*", u, u]]]
+        c.setdefault("quad", []).append(e)
+        c["objective"].append(["int", len(c["quad"]) - 1])
+        c["_alg_integrand"] = True
     return c
 
 
